@@ -336,7 +336,13 @@ json::Value eventOf(Ctx& X, const Stmt* st) {
       if (auto* tsi = vd->getTypeSourceInfo()) v["wtype"] = srcText(X, tsi->getTypeLoc().getSourceRange(), 80);
       vars.push_back(std::move(v));
     }
-    if (vars.empty()) return nullptr;
+    if (vars.empty()) {
+      // local type aliases (`using value_type = remove_cvref_t<T>;`): needed to resolve trait arguments
+      for (auto* d : ds->decls()) if (auto* td = dyn_cast<TypedefNameDecl>(d))
+        return json::Object{{"k", "alias"}, {"line", lineOf(X, ds->getBeginLoc())}, {"name", td->getNameAsString()},
+                            {"type", td->getTypeSourceInfo() ? srcText(X, td->getTypeSourceInfo()->getTypeLoc().getSourceRange(), 200) : typeStr(td->getUnderlyingType(), X.C)}};
+      return nullptr;
+    }
     return json::Object{{"k", "decl"}, {"line", lineOf(X, ds->getBeginLoc())}, {"vars", std::move(vars)}};
   }
   if (auto* rs = dyn_cast<ReturnStmt>(st)) {
@@ -490,6 +496,17 @@ json::Object extractBody(Ctx& X, const Decl* D, const Stmt* Body) {
   return fo;
 }
 
+// local type aliases of a function body (`using value_type = remove_cvref_t<T>;`): clang's CFG has no element for them
+struct AliasCollector : RecursiveASTVisitor<AliasCollector> {
+  Ctx& X; json::Object out;
+  explicit AliasCollector(Ctx& x) : X(x) {}
+  bool TraverseLambdaExpr(LambdaExpr*) { return true; }
+  bool VisitTypedefNameDecl(TypedefNameDecl* td) {
+    out[td->getNameAsString()] = td->getTypeSourceInfo() ? srcText(X, td->getTypeSourceInfo()->getTypeLoc().getSourceRange(), 200) : typeStr(td->getUnderlyingType(), X.C);
+    return true;
+  }
+};
+
 struct V : RecursiveASTVisitor<V> {
   Ctx X; json::Array funcs, records;
   std::set<const void*> seen;
@@ -517,6 +534,7 @@ struct V : RecursiveASTVisitor<V> {
     fo["line"] = lineOf(X, F->getLocation());
     fo["endline"] = lineOf(X, Body->getEndLoc());
     fo["dep"] = F->isDependentContext();
+    { AliasCollector ac(X); ac.TraverseStmt(const_cast<Stmt*>(Body)); if (!ac.out.empty()) fo["aliases"] = std::move(ac.out); }
     if (L) { fo["lambda"] = true; fo["fid"] = locStr(X, L->getBeginLoc()) + ":" + std::to_string(X.SM.getExpansionColumnNumber(L->getBeginLoc())); fo["parent_fn"] = parentFn; }
     if (auto* m = dyn_cast<CXXMethodDecl>(F)) {
       fo["record"] = m->getParent()->getQualifiedNameAsString();
@@ -529,6 +547,11 @@ struct V : RecursiveASTVisitor<V> {
     json::Array ps;
     for (auto* p : F->parameters()) ps.push_back(json::Object{{"name", p->getNameAsString()}, {"type", typeStr(p->getType(), X.C)}});
     fo["params"] = std::move(ps);
+    if (auto* ft = F->getDescribedFunctionTemplate()) {
+      json::Array tps;
+      for (auto* tp : *ft->getTemplateParameters()) tps.push_back(tp->getNameAsString());
+      fo["tparams"] = std::move(tps);
+    }
     if (auto* fpt = F->getType()->getAs<FunctionProtoType>()) {
       auto est = fpt->getExceptionSpecType();
       fo["noexcept"] = (est == EST_BasicNoexcept || est == EST_NoexceptTrue || est == EST_NoThrow) ? "yes" : (est == EST_DependentNoexcept ? "dependent" : (est == EST_None ? "none" : "other"));
